@@ -173,6 +173,13 @@ func (g *Generator) generateInt64FieldMarshal(gf *protogen.GeneratedFile, field 
 	if field.Desc.IsList() {
 		// Handle repeated int64 fields
 		g.generateRepeatedInt64FieldMarshal(gf, fieldName, jsonName)
+	} else if field.Desc.HasOptionalKeyword() {
+		// proto3 optional: the Go field is a pointer, presence (not the value) decides
+		gf.P("// Convert ", fieldName, " from string to number")
+		gf.P("if x.", fieldName, " != nil {")
+		gf.P(`raw["`, jsonName, `"], _ = json.Marshal(*x.`, fieldName, `)`)
+		gf.P("}")
+		gf.P()
 	} else {
 		// Handle singular int64 field
 		g.generateSingularInt64FieldMarshal(gf, fieldName, jsonName)
